@@ -142,7 +142,7 @@ def acceptedFails (pre : State) (op : Op) (post : State) : List Fail :=
   | .issue owner symbol name minUnit scale init max mintable =>
     let mx := defaultMax init max mintable
     chk (!(AMap.contains pre.tokens symbol) && !(AMap.contains pre.minUnits minUnit)) "issue-identity-fresh" ++
-    chk (AMap.get? post.tokens symbol == some (Token.mk symbol name scale minUnit init mx mintable owner 0)) "issue-record" ++
+    chk (AMap.get? post.tokens symbol == some (issuedToken owner symbol name minUnit scale init max mintable)) "issue-record" ++
     chk (tokensSameExcept pre post symbol) "issue-other-tokens" ++
     chk (supplyOf post minUnit == supplyOf pre minUnit + init * pow10 scale) "issue-supply" ++
     chk (supplyOf pre minUnit != 0 || decide (supplyOf post minUnit ≤ mx * pow10 scale)) "issue-cap" ++
